@@ -3,7 +3,7 @@ import os, shutil, concurrent.futures
 import ps, oracle, iterlib, countlib, C04
 
 LEVEL = "proof"
-THEOREMS = ["C08_set_sieve_size_clamped", "C08_set_num_threads_clamped", "C08_get_sieve_size_clamped", "C08_init_admissible", "C08_config_irrelevant_iterator"]
+THEOREMS = ["C08_set_sieve_size_clamped", "C08_set_num_threads_clamped", "C08_get_sieve_size_clamped", "C08_init_admissible", "C08_config_irrelevant_iterator", "C08_model_kernel_config_independent"]
 ASSUMPTIONS = [
     "proved: clamps, admissibility of every configuration reaching the kernel, independence of the iterator from heuristics/hints/kernel implementation given the kernel specification; the SIMD code paths (AVX512 / SSE2 presieve, AVX512 bit decoding, popcnt variants) are not modelled: the multiarch build and the WITH_MULTIARCH=OFF build are compared at specification level only (partial)",
     "the sysfs parsers are exercised through hook H2 with synthetic trees; their string-level model is not in Coq",
